@@ -865,3 +865,198 @@ ALL_KINDS = {'define', 'reg', 'set', 'power', 'assign', 'print', 'wait', 'time',
              'call', 'break', 'return', 'stage'}
 
 
+
+
+# ---------------------------------------------------------------------------
+# small construction kit: every function returns (text, coq) for one statement / value
+
+class K:
+    @staticmethod
+    def lit(v):
+        return (txt_num(v), '(RLit %s)' % coq_lit(v))
+
+    @staticmethod
+    def var(x):
+        return (x, '(RVar %s)' % coq_str(x))
+
+    @staticmethod
+    def expr(tree_text, tree_coq):
+        return ('{' + tree_text + '}', '(RExpr %s)' % tree_coq)
+
+    @staticmethod
+    def e_bin(op, a, b):
+        return ('%s %s %s' % (a[0], op, b[0]), '(EBin %s %s %s)' % (BINOP[op], a[1], b[1]))
+
+    @staticmethod
+    def e_var(x):
+        return (x, '(EVar %s)' % coq_str(x))
+
+    @staticmethod
+    def e_lit(v):
+        return (txt_num(v), '(ELit %s)' % coq_lit(v))
+
+    @staticmethod
+    def e_call(f, args):
+        return ('[' + ' '.join([f] + [a[0] for a in args]) + ']', '(ECall %s %s)' % (coq_str(f), coq_list([a[1] for a in args])))
+
+    @staticmethod
+    def r_call(f, args):
+        return ('[' + ' '.join([f] + [a[0] for a in args]) + ']', '(RCall %s %s)' % (coq_str(f), coq_list([a[1] for a in args])))
+
+    @staticmethod
+    def assign(x, rv):
+        return ('assign %s %s' % (x, rv[0]), '(SAssign %s %s)' % (coq_str(x), rv[1]))
+
+    @staticmethod
+    def pr(rv):
+        return ('print %s' % rv[0], '(SPrint (Some %s))' % rv[1])
+
+    @staticmethod
+    def reg(r, rv):
+        return ('%s %s' % (r, rv[0]), '(SReg R_%s %s)' % (r.upper(), rv[1]))
+
+    @staticmethod
+    def block(items):
+        return ('begin\n' + ''.join(t + '\n' for t, _ in items) + 'end', '(SBlock %s)' % coq_list([c for _, c in items]))
+
+    @staticmethod
+    def define(f, params, items):
+        b = K.block(items)
+        return ('define %s%s %s' % (f, ' with ' + ' '.join(params) if params else '', b[0]),
+                '(SDefineRoutine %s %s %s)' % (coq_str(f), coq_list([coq_str(p) for p in params]), b[1]))
+
+    @staticmethod
+    def call(f, args):
+        return (' '.join([f] + [a[0] for a in args]), '(SCall %s %s false)' % (coq_str(f), coq_list([a[1] for a in args])))
+
+    @staticmethod
+    def ret(rv):
+        return ('return %s' % rv[0], '(SReturn (Some %s))' % rv[1])
+
+    @staticmethod
+    def if_(cond, items, else_items=None):
+        b = K.block(items)
+        if else_items is None:
+            return ('if %s %s' % (cond[0], b[0]), '(SIf %s %s None)' % (cond[1], b[1]))
+        e = K.block(else_items)
+        return ('if %s %s\nelse %s' % (cond[0], b[0], e[0]), '(SIf %s %s (Some %s))' % (cond[1], b[1], e[1]))
+
+    @staticmethod
+    def rep_count(n, items):
+        b = K.block(items)
+        return ('repeat %s %s' % (n[0], b[0]), '(SRepeat (LCount %s) %s)' % (n[1], b[1]))
+
+    @staticmethod
+    def rep_range(v, a, b_, items):
+        b = K.block(items)
+        return ('repeat with %s from %s to %s %s' % (v, a[0], b_[0], b[0]),
+                '(SRepeat (LRange %s %s %s) %s)' % (coq_str(v), a[1], b_[1], b[1]))
+
+    @staticmethod
+    def rep_all(x, items):
+        b = K.block(items)
+        return ('repeat all as %s %s' % (x, b[0]), '(SRepeat (LAll %s None) %s)' % (coq_str(x), b[1]))
+
+    @staticmethod
+    def rep_group(g, x, items):
+        b = K.block(items)
+        return ('repeat in group "%s" as %s %s' % (g, x, b[0]),
+                '(SRepeat (LIn [SrcGroup (RLit (LStr %s))] %s None) %s)' % (coq_str(g), coq_str(x), b[1]))
+
+    @staticmethod
+    def set_light_var(x):
+        return ('set %s' % x, '(SSet (OpList [Target TLight (NVar %s)]))' % coq_str(x))
+
+    @staticmethod
+    def brk():
+        return ('break', 'SBreak')
+
+
+def scenario(rng, world):
+    """Directed scripts for situations the free generator reaches rarely: a parameter shadowing a global and
+    holding a falsy value when it is assigned (in plain code, in a loop, in a conditional); a return out of
+    loops nested in a light loop while the caller has values pending; a routine defined inside a branch that
+    is not taken or a loop body; index variables of caller and callee loops."""
+    kind = rng.choice(['shadow', 'shadow', 'shadow', 'unwind', 'unwind', 'nested_def', 'nested_def', 'loop_in_loop'])
+    g = rng.choice(['a', 'x', 'n', 'level'])
+    items = []
+    if kind == 'shadow':
+        v0 = rng.choice([5, 7, 100, 2.5])
+        arg = rng.choice([0, 0, 0.0, 1, 3])
+        items.append(K.assign(g, K.lit(v0)))
+        inc = K.assign(g, K.expr(*K.e_bin('+', K.e_var(g), K.e_lit(rng.choice([1, 7])))))
+        wrap = rng.choice(['plain', 'loop', 'if', 'loop_if', 'countdown'])
+        body = []
+        if wrap == 'plain':
+            body = [inc]
+        elif wrap == 'loop':
+            body = [K.rep_count(K.lit(rng.randint(1, 3)), [inc])]
+        elif wrap == 'if':
+            body = [K.if_(K.expr(*K.e_bin('<', K.e_var(g), K.e_lit(50))), [inc])]
+        elif wrap == 'loop_if':
+            body = [K.rep_range('k', K.lit(1), K.lit(2), [K.if_(K.expr(*K.e_bin('>=', K.e_var(g), K.e_lit(0))), [inc])])]
+        else:
+            dec = K.assign(g, K.expr(*K.e_bin('-', K.e_var(g), K.e_lit(1))))
+            body = [K.rep_count(K.lit(arg if isinstance(arg, int) else 2), [dec]), K.if_(K.expr(*K.e_bin('==', K.e_var(g), K.e_lit(0))), [inc])]
+        body.append(K.pr(K.var(g)))
+        if world and rng.random() < 0.4:
+            body.append(K.reg('hue', K.var(g)))
+            body.append(('set all', '(SSet OpAll)'))
+        items.append(K.define('bump', [g] + (['q'] if rng.random() < 0.3 else []), body))
+        args = [K.lit(arg)] + ([K.lit(9)] if 'q' in items[-1][0].split('begin')[0] else [])
+        items.append(K.call('bump', args))
+        items.append(K.pr(K.var(g)))
+        items.append(K.call('bump', [K.var(g)] + args[1:]))
+        items.append(K.pr(K.var(g)))
+    elif kind == 'unwind':
+        grp = world[0][1] if world else 'g1'
+        inner = [K.ret(K.lit(5))]
+        depth = rng.choice([1, 2, 2])
+        body = inner
+        for d in range(depth):
+            body = [K.rep_count(K.lit(rng.randint(1, 3)), body)] if d < depth - 1 or rng.random() < 0.3 else [K.rep_range('j', K.lit(1), K.lit(2), body)]
+        outer = rng.choice(['all', 'group'])
+        fbody = [K.rep_all('lx', body)] if outer == 'all' else [K.rep_group(grp, 'lx', body)]
+        fbody.append(K.ret(K.lit(6)))
+        items.append(K.define('probe', [], fbody))
+        site = rng.choice(['operand', 'arg', 'caller_loop', 'caller_loop'])
+        if site == 'operand':
+            items.append(K.pr(K.expr(*K.e_bin('+', K.e_lit(100), K.e_call('probe', [])))))
+            items.append(K.pr(K.expr(*K.e_bin('*', K.e_call('probe', []), K.e_lit(2)))))
+        elif site == 'arg':
+            items.append(K.define('twice', ['v'], [K.ret(K.expr(*K.e_bin('*', K.e_var('v'), K.e_lit(2))))]))
+            items.append(K.pr(K.expr(*K.e_bin('+', K.e_lit(1), K.e_call('twice', [K.r_call('probe', [])])))))
+        else:
+            items.append(K.rep_all('each', [K.assign('r', K.r_call('probe', [])), K.pr(K.var('each')), K.set_light_var('each')]))
+        items.append(K.pr(K.lit(999)))
+    elif kind == 'nested_def':
+        first = K.define('early', ['p'], [K.pr(K.var('p')), K.ret(K.lit(1))]) if rng.random() < 0.6 else None
+        if first:
+            items.append(first)
+        inner_def = K.define('late', [], [K.pr(K.lit(42)), K.reg('hue', K.lit(33))])
+        cond_false = K.expr(*K.e_bin('>', K.e_lit(1), K.e_lit(2)))
+        cond_true = K.expr(*K.e_bin('<', K.e_lit(1), K.e_lit(2)))
+        shape = rng.choice(['if_false', 'if_false', 'if_true', 'if_else', 'loop', 'while_false'])
+        if shape == 'if_false':
+            items.append(K.if_(cond_false, [K.pr(K.lit(1)), inner_def, K.pr(K.lit(2))]))
+        elif shape == 'if_true':
+            items.append(K.if_(cond_true, [inner_def, K.pr(K.lit(2))]))
+        elif shape == 'if_else':
+            items.append(K.if_(cond_false, [inner_def, K.pr(K.lit(2))], [K.pr(K.lit(3))]))
+        elif shape == 'loop':
+            items.append(K.rep_range('i', K.lit(1), K.lit(3), [K.pr(K.var('i')), inner_def, K.if_(K.expr(*K.e_bin('==', K.e_var('i'), K.e_lit(2))), [K.brk()])]))
+        else:
+            b = K.block([inner_def, K.pr(K.lit(8))])
+            items.append(('repeat while %s %s' % (cond_false[0], b[0]), '(SRepeat (LWhile %s) %s)' % (cond_false[1], b[1])))
+        items.append(K.reg('hue', K.lit(20)))
+        items.append(K.pr(K.lit(7)))
+        items.append(K.call('late', []))
+        if first:
+            items.append(K.call('early', [K.lit(3)]))
+        items.append(('set all', '(SSet OpAll)'))
+    else:
+        callee = K.define('inner', [], [K.rep_range('i', K.lit(10), K.lit(12), [K.pr(K.var('i')), K.if_(K.expr(*K.e_bin('==', K.e_var('i'), K.e_lit(rng.choice([10, 11, 12])))), [K.brk()])]), K.ret(K.lit(0))])
+        items.append(callee)
+        items.append(K.rep_range('j', K.lit(1), K.lit(3), [K.rep_range('k', K.lit(10), K.lit(12), [K.pr(K.var('k')), K.if_(K.expr(*K.e_bin('==', K.e_var('k'), K.e_lit(12))), [K.brk()])]), K.pr(K.var('j')), K.call('inner', [])]))
+        items.append(K.pr(K.lit(999)))
+    return items
